@@ -28,12 +28,13 @@ def _read_sources(root):
 def _run_variant(args):
     import warnings
     warnings.simplefilter('ignore')
-    idx, file, source, props, base = args
+    idx, file, source, props, base, more = args
     tmp = tempfile.mkdtemp(prefix='sa_selftest_', dir=base)
     try:
         shutil.copytree(os.path.join(REPO_ROOT, 'pytenet'), os.path.join(tmp, 'pytenet'))
-        with open(os.path.join(tmp, 'pytenet', file), 'w', encoding='utf-8') as f:
-            f.write(source)
+        for fn_, text in [(file, source)] + sorted(more.items()):
+            with open(os.path.join(tmp, 'pytenet', fn_), 'w', encoding='utf-8') as f:
+                f.write(text)
         res = {}
         for pid in props:
             try:
@@ -59,7 +60,7 @@ def run(pid=None, jobs=None):
     base = tempfile.mkdtemp(prefix='sa_selftest_root_')
     try:
         jobs = jobs or min(16, os.cpu_count() or 4)
-        work = [(i, v.file, v.source, v.props, base) for i, v in enumerate(variants)]
+        work = [(i, v.file, v.source, v.props, base, v.more) for i, v in enumerate(variants)]
         if jobs > 1 and len(work) > 1:
             with multiprocessing.Pool(jobs) as pool:
                 results = pool.map(_run_variant, work, chunksize=1)
